@@ -1,7 +1,7 @@
 import re
 import uuid
 from abc import ABC, abstractmethod
-from collections.abc import Callable, Mapping, Sequence
+from collections.abc import Callable, Iterator, Mapping, Sequence
 from dataclasses import dataclass, field, replace
 from functools import cached_property
 from types import new_class
@@ -272,6 +272,13 @@ def expr_or_maybe_none(spec: ValueSpec, new_expr: Expression) -> Expression:
         return f"{new_expr} if {spec.expression} is not None else None"
     else:
         return new_expr
+
+
+def iter_outer_builders(builder: "CodeBuilder") -> Iterator["CodeBuilder"]:
+    outer: Optional["CodeBuilder"] = builder
+    while outer is not None:
+        yield outer
+        outer = outer.outer
 
 
 def random_hex() -> str:
